@@ -51,6 +51,16 @@ CHECKS = {
             "Trusted: TLC; the PosCoded model is defined twice (TLA+ and torch) and cross-checked through y0; attribution compared "
             "after scaling by A*|targets|.",
             "DESIGN.md §5 C09"),
+    "C08": (["WrappersOps", "Wrappers", "Wrappers_Trace"],
+            "TLA+ spec (WrappersOps/Wrappers, re-using ErsatzOps and ISMOps) model-checked with TLC; every enumerated configuration "
+            "replayed into marginalize/ablate/space/*_annotations/apply_pairwise/apply_product with a fingerprint model; "
+            "shuffle-based wrappers and random configurations validated against Wrappers_Trace",
+            "TLC enumerates configurations (examples, outputs, args, shuffles, annotations != outputs, spacing grids, product sizes, "
+            "batch sizes) with the value each output index must hold by its denotation; each is executed with an exact-integer "
+            "fingerprint model whose outputs encode sequence and args, and compared index by index.",
+            "Trusted: TLC; the fingerprint model separates all inputs in scope (ProductSeparates invariant); shuffles are logged "
+            "facts checked to be shuffles of the region; func = predict.",
+            "DESIGN.md §5 C08"),
 }
 
 ALL = ["C%02d" % i for i in range(1, 21)]
